@@ -102,6 +102,24 @@ async fn body_h(rq: RequestContext<()>, _b: TypedBody<ABody>) -> Result<HttpResp
     Ok(HttpResponseOk(RidBody { handler_request_id: rq.request_id.clone() }))
 }
 
+// handlers that put an x-request-id of their own on the response (say, relayed from an upstream):
+// the header the client sees must still be this request's id
+async fn own_raw_h(rq: RequestContext<()>) -> Result<hyper::Response<dropshot::Body>, HttpError> {
+    let body = serde_json::to_vec(&RidBody { handler_request_id: rq.request_id.clone() }).unwrap();
+    Ok(hyper::Response::builder()
+        .status(200)
+        .header("content-type", "application/json")
+        .header("x-request-id", "handler-chosen-id")
+        .body(body.into())
+        .unwrap())
+}
+async fn own_hdrs_h(rq: RequestContext<()>) -> Result<dropshot::HttpResponseHeaders<HttpResponseOk<RidBody>>, HttpError> {
+    let mut r = dropshot::HttpResponseHeaders::new_unnamed(HttpResponseOk(RidBody { handler_request_id: rq.request_id.clone() }));
+    r.headers_mut().insert("x-request-id", http::HeaderValue::from_static("handler-chosen-id"));
+    r.headers_mut().append("x-request-id", http::HeaderValue::from_static("handler-chosen-id-2"));
+    Ok(r)
+}
+
 fn api() -> ApiDescription<()> {
     let mut api = ApiDescription::new();
     let ct = "application/json";
@@ -113,6 +131,8 @@ fn api() -> ApiDescription<()> {
     api.register(ApiEndpoint::new("ctyped".into(), custom_typed_h, http::Method::GET, ct, "/ctyped/{n}", v())).unwrap();
     api.register(ApiEndpoint::new("query".into(), query_h, http::Method::GET, ct, "/q", v())).unwrap();
     api.register(ApiEndpoint::new("body".into(), body_h, http::Method::PUT, ct, "/body", v())).unwrap();
+    api.register(ApiEndpoint::new("own_raw".into(), own_raw_h, http::Method::GET, ct, "/own_raw", v())).unwrap();
+    api.register(ApiEndpoint::new("own_hdrs".into(), own_hdrs_h, http::Method::GET, ct, "/own_hdrs", v())).unwrap();
     api
 }
 
@@ -154,6 +174,8 @@ fn cases(i: u64) -> Vec<Case> {
         Case { name: "body_extractor_failure", req: request("PUT", "/body", &format!("content-type: application/json\r\n{client_rid}"), b"{\"a\":"), status: 400, framework_body: true, handler_id: HandlerId::None },
         Case { name: "body_oversize", req: request("PUT", "/body", &format!("content-type: application/json\r\n{client_rid}"), format!("{{\"a\":1{}}}", " ".repeat(2000)).as_bytes()), status: 400, framework_body: true, handler_id: HandlerId::None },
         Case { name: "body_wrong_content_type", req: request("PUT", "/body", &format!("content-type: text/plain\r\n{client_rid}"), b"{\"a\":1}"), status: 400, framework_body: true, handler_id: HandlerId::None },
+        Case { name: "handler_sets_own_request_id_on_raw_response", req: g("/own_raw"), status: 200, framework_body: false, handler_id: HandlerId::Field("handler_request_id") },
+        Case { name: "handler_sets_own_request_id_via_headers_mut", req: g("/own_hdrs"), status: 200, framework_body: false, handler_id: HandlerId::Field("handler_request_id") },
         Case { name: "not_found", req: g("/nope"), status: 404, framework_body: true, handler_id: HandlerId::None },
         Case { name: "method_not_allowed", req: request("POST", "/ok", client_rid, b""), status: 405, framework_body: true, handler_id: HandlerId::None },
         Case { name: "bad_path", req: g("/typed/%ff"), status: 400, framework_body: true, handler_id: HandlerId::None },
@@ -236,7 +258,7 @@ pub fn run(ctx: &Ctx, samples: &Samples) -> Value {
     let vsrv = LiveServer::start(api(), (), ServerOpts { version_policy: Some(versioned("2.0.0")), ..Default::default() }).unwrap_or_else(|e| machinery_failure(&e));
     let sh = Shared { ids: Mutex::new(HashSet::new()), requests: AtomicU64::new(0), kinds: Mutex::new(Default::default()) };
     let nconn = 8usize;
-    let per_case_rounds = total / (nconn as u64 * 16);
+    let per_case_rounds = total / (nconn as u64 * 18);
     par_for(nconn, nconn, 0, |t| {
         let mut ka = KeepAlive::new(srv.addr);
         let mut kv = KeepAlive::new(vsrv.addr);
@@ -262,7 +284,7 @@ pub fn run(ctx: &Ctx, samples: &Samples) -> Value {
     let n = sh.requests.load(Ordering::Relaxed);
     let ids = sh.ids.lock().unwrap().len() as u64;
     json!({"requests": n, "distinct_request_ids": ids, "connections": nconn, "per_kind": *sh.kinds.lock().unwrap(),
-           "script": "16 response kinds cycled over 8 keep-alive connections and two servers (unversioned, header-versioned); status codes 400..=599 cycled; client-supplied x-request-id headers (absent / repeated value / all-zero uuid / two lines) cycled"})
+           "script": "18 response kinds cycled over 8 keep-alive connections and two servers (unversioned, header-versioned); status codes 400..=599 cycled; client-supplied x-request-id headers (absent / repeated value / all-zero uuid / two lines) cycled"})
 }
 
 pub fn replay(ctx: &Ctx, _case: &Value) {
